@@ -1513,7 +1513,10 @@ def competing_resonance_pairs(ints):
     try:
         m, _ = wire.ints_to_mol(ints, calc=True)
         entries, exits, rads, *_ = m._Resonance__entries()
-        return len(entries) >= 2 or len(exits) >= 2 or len(rads) >= 3
+        # charged starts / ends only: the neutral amine and nitrile helpers the search adds are not a choice between dipoles
+        neg = [n for n in entries if m.atom(n).charge == -1]
+        pos = [n for n in exits if m.atom(n).charge == 1]
+        return len(neg) >= 2 or len(pos) >= 2 or len(rads) >= 3
     except Exception:
         return False
 
